@@ -163,7 +163,7 @@ func (d *PathDecoder) isPosInsideAttrExpr(attr *hclsyntax.Attribute, pos hcl.Pos
 	}
 
 	// edge case: near end (typically newline char)
-	if attr.Expr.Range().End.Byte == pos.Byte {
+	if attr.Expr.Range().End.Byte == pos.Byte && attr.Expr.Range().Start.Byte <= pos.Byte {
 		return true
 	}
 
